@@ -22,6 +22,7 @@ import (
 	"errors"
 	"fmt"
 	"os"
+	"path/filepath"
 	"strings"
 	"time"
 
@@ -52,6 +53,9 @@ func isDefaultDashboard(id string) bool {
 }
 
 func getDashboardDetailsPath(id string) string {
+	// ids come from request URLs: keep only the last path element so that the
+	// file always lies inside the dashboards directory
+	id = filepath.Base(filepath.Clean("/" + id))
 	if isDefaultDashboard(id) {
 		return fmt.Sprintf("defaultDBs/details/%s.json", id)
 	}
